@@ -34,7 +34,7 @@ def alphabet(nx=4, safe=False, unkey=None, variant='plain'):
             val = ('frac', recv[0])
         elif variant == 'falsykey':
             val = stubs._zvalue(args)
-        elif variant == 'plain':
+        elif variant in ('plain', 'builtin'):
             val = stubs._value(*recv)
         elif variant == 'big':
             val = stubs._bvalue(*recv)
@@ -69,6 +69,14 @@ def alphabet(nx=4, safe=False, unkey=None, variant='plain'):
         add((zs[0],), {}, (zs[0], 0), (0, 'z'))
         add((7,), {}, (7, 0), (7, 0), 'raise')
         add((8,), {}, (8, 0), (8, 0), 'raise')
+    elif variant == 'builtin':    # getattr(Probe(x), 'val'): an un-inspectable callable, positional arguments only
+        for x in xs:
+            add((stubs.Probe(x), 'val'), {}, (x, 0), (x, 0))
+        add((stubs.Probe(1), 'val'), {}, (1, 0), (1, 0))
+        add((stubs.Probe(2), 'val'), {}, (2, 0), (2, 0))
+        add((stubs.Probe(1), 'val'), {}, (1, 0), (1, 0))
+        add((stubs.Probe(7), 'val'), {}, (7, 0), (7, 0), 'raise')
+        add((stubs.Probe(8), 'val'), {}, (8, 0), (8, 0), 'raise')
     elif variant == 'mixed':      # values of mutually unorderable types in one position
         ms = stubs.MIXED[:nx]
         for n, x in enumerate(ms):
@@ -227,8 +235,12 @@ class Recorder(object):
                 unkey = stubs.BAD_BY_KIND.get(kind, stubs.BadRepr)()
         self.variant = cfg.get('variant', 'plain')
         self.args = alphabet(cfg.get('nx', 4), self.safe, unkey, self.variant)
-        self.funcs = {'plain': stubs.FUNCS, 'falsykey': stubs.ZFUNCS, 'big': stubs.BFUNCS, 'eqtypes': stubs.EFUNCS, 'mixed': stubs.MFUNCS, 'long': stubs.LFUNCS, 'ignore_w': stubs.WFUNCS, 'frac': stubs.QFUNCS, 'ignore_y': stubs.GFUNCS, 'ignore_1': stubs.GFUNCS, 'tol0': stubs.HFUNCS,
+        self.funcs = {'plain': stubs.FUNCS, 'builtin': stubs.UFUNCS, 'falsykey': stubs.ZFUNCS, 'big': stubs.BFUNCS, 'eqtypes': stubs.EFUNCS, 'mixed': stubs.MFUNCS, 'long': stubs.LFUNCS, 'ignore_w': stubs.WFUNCS, 'frac': stubs.QFUNCS, 'ignore_y': stubs.GFUNCS, 'ignore_1': stubs.GFUNCS, 'tol0': stubs.HFUNCS,
                       'tol1': stubs.TFUNCS}[self.variant]
+        if cfg.get('aspartial'):
+            # the decorated callable is a functools.partial of the stub that presets nothing: same calls, same values
+            import functools
+            self.funcs = [functools.partial(fn) for fn in self.funcs]
         self.ni = cfg.get('ni', 1)
         self.na = cfg.get('na', 2)
         self.slots = []
